@@ -7,6 +7,9 @@ package main
 import (
 	"fmt"
 	"net"
+	"runtime"
+	"sync"
+	"sync/atomic"
 	"time"
 
 	"github.com/TheManticoreProject/Manticore/network/netbios/nbtns"
@@ -42,6 +45,86 @@ func childExtra(r *mon.Run, out *childOut) {
 	nameSpellings(r, out)
 	deadlines(r, out)
 	cleanExact(r, out)
+	sweepsAgainstReRegistration(r, out)
+}
+
+// sweepsAgainstReRegistration: expiry sweeps run while lapsed names are released and registered
+// again with a long lifetime. Whatever the interleaving, each sweep takes effect either before
+// the new registration (it removes the lapsed record, the registration then creates the name)
+// or after it (the name is live and stays): when everything has finished every re-registered
+// name must be in the table with its new deadline.
+func sweepsAgainstReRegistration(r *mon.Run, out *childOut) {
+	for round := 0; round < r.Pick(6, 60); round++ {
+		t := nbtns.NewNetBIOSNameServer(false)
+		const writers, perWriter = 4, 500
+		name := func(w, i int) string { return fmt.Sprintf("ABA-%d-%04d", w, i) }
+		for w := 0; w < writers; w++ {
+			for i := 0; i < perWriter; i++ {
+				t.RegisterName(name(w, i), nbtns.Unique, bigAddr(w), -time.Hour) // lapsed on arrival
+			}
+		}
+		stop := make(chan struct{})
+		var sweeps atomic.Int64
+		var wg, sw sync.WaitGroup
+		for k := 0; k < 2; k++ {
+			sw.Add(1)
+			go func() {
+				defer sw.Done()
+				for {
+					select {
+					case <-stop:
+						return
+					default:
+					}
+					t.CleanExpiredNames()
+					sweeps.Add(1)
+				}
+			}()
+		}
+		refused := make([]string, writers)
+		for w := 0; w < writers; w++ {
+			wg.Add(1)
+			go func() {
+				defer wg.Done()
+				for i := 0; i < perWriter; i++ {
+					t.ReleaseName(name(w, i), bigAddr(w)) // whether or not a sweep was faster
+					if err := t.RegisterName(name(w, i), nbtns.Unique, bigAddr(w), 24*time.Hour); err != nil && refused[w] == "" {
+						refused[w] = fmt.Sprintf("%s: %v", name(w, i), err)
+					}
+					if i%16 == 0 {
+						runtime.Gosched()
+					}
+				}
+			}()
+		}
+		wg.Wait()
+		close(stop)
+		sw.Wait()
+		t.CleanExpiredNames()
+		snap := t.VerifSnapshot()
+		out.res.Evals += writers * perWriter
+		missing, first := 0, ""
+		for w := 0; w < writers; w++ {
+			if refused[w] != "" {
+				out.violation("W3:sweep-vs-reregistration:refused", "registering a released name again was refused while sweeps ran: "+refused[w], map[string]any{"round": round}, 1)
+				return
+			}
+			for i := 0; i < perWriter; i++ {
+				if rec, ok := snap[name(w, i)]; !ok || !rec.TTL.After(time.Now().Add(time.Hour)) {
+					missing++
+					if first == "" {
+						first = name(w, i)
+					}
+				}
+			}
+		}
+		if missing > 0 {
+			out.violation("W3:sweep-vs-reregistration:live-name-removed", fmt.Sprintf("%d of %d names registered for 24 h while %d expiry sweeps ran are not in the table afterwards (first: %s): a sweep removed a live registration", missing, writers*perWriter, sweeps.Load(), first), map[string]any{"round": round, "sweeps": sweeps.Load()}, int64(missing))
+			return
+		}
+		out.res.Counters["sweeps_concurrent_with_reregistration"] += sweeps.Load()
+		out.res.Nontrivial = append(out.res.Nontrivial, fmt.Sprintf("aba|%d", round))
+	}
 }
 
 // cleanExact: names with mixed lifetimes (joins and refreshes that move a deadline earlier or
